@@ -226,7 +226,7 @@ var vHostText = map[string]string{"exact": "example.com", "sub": "app.example.co
 
 func vRenderURL(u map[string]interface{}, originOnly bool) string {
 	scheme := map[string]string{"https": "https://", "http": "http://", "HTTPS": "HTTPS://", "javascript": "javascript://",
-		"none": "", "schemerel": "//"}[vStr(u, "scheme")]
+		"none": "", "schemerel": "//", "httpsx": "httpsx://", "https+app": "https+app://", "HTTPS.app": "HTTPS.app://"}[vStr(u, "scheme")]
 	host := vHostText[vStr(u, "host")]
 	port := map[string]string{"none": "", "443": ":443", "8443": ":8443"}[vStr(u, "port")]
 	path := map[string]string{"plain": "/cb", "empty": "", "dotdot": "/a/../cb", "encdotdot": "/a/%2e%2e/cb", "mixdotdot": "/a/.%2E/cb", "double": "//cb"}[vStr(u, "path")]
@@ -276,6 +276,16 @@ func runC13(t *testing.T, cases []map[string]interface{}, ev *vEvents) {
 			switch site {
 			case "validator":
 				text = vRenderURL(u, false)
+				cc, err := w.st.idpOpenIDCGetClientConfig(client)
+				if err == nil {
+					ok, _, _ := cc.CanRedirectToURL(text)
+					redirected = ok
+				}
+			case "validator_after_loose":
+				text = vRenderURL(u, false)
+				if lc, err := w.st.idpOpenIDCGetClientConfig("loose"); err == nil {
+					lc.CanRedirectToURL(text)
+				}
 				cc, err := w.st.idpOpenIDCGetClientConfig(client)
 				if err == nil {
 					ok, _, _ := cc.CanRedirectToURL(text)
